@@ -78,6 +78,49 @@ def find_bijection(odes_a, odes_b, eq, base=None, extra=None, limit=400):
                                                             'equal; shown: first mismatch under the name-based one'))]
 
 
+def rename_unmatched(m, m2):
+    """parameter / random-variable correspondence between the in-memory model and the re-read one: identical names
+    correspond (pharmpy keeps names in the comments of the parameter records); the remaining ones correspond by
+    position within their category (theta / omega / sigma parameters, etas, epsilons)."""
+    ren = {}
+
+    def cats(mod):
+        th = [p.name for p in theta_params(mod)]
+        om = [str(s) for d in mod.random_variables.etas for s in _ordered_symbols(d)]
+        si = [str(s) for d in mod.random_variables.epsilons for s in _ordered_symbols(d)]
+        return [th, _uniq(om), _uniq(si), list(mod.random_variables.etas.names),
+                list(mod.random_variables.epsilons.names)]
+    for a_list, b_list in zip(cats(m), cats(m2)):
+        common = set(a_list) & set(b_list)
+        ra = [x for x in a_list if x not in common]
+        rb = [x for x in b_list if x not in common]
+        for a, b in zip(ra, rb):
+            ren[a] = b
+    return ren
+
+
+def _uniq(xs):
+    out = []
+    for x in xs:
+        if x not in out:
+            out.append(x)
+    return out
+
+
+def _ordered_symbols(dist):
+    import sympy
+    var = dist.variance
+    n = len(dist.names)
+    if n == 1:
+        return [s for s in sympy.sympify(var).free_symbols]
+    out = []
+    for r in range(n):
+        for c in range(r + 1):
+            out += list(sympy.sympify(var[r, c]).free_symbols)
+    return out
+
+
+
 def verdict(v):
     return {'equal': 'discharged', 'differ': 'violated'}.get(v, 'inconclusive')
 
